@@ -25,7 +25,11 @@ def _snapshot():
 def _restored(sb, snap):
     so, sl, mods = snap
     return (sys.stdout is so and time.sleep is sl and set(sys.modules) == mods
+            and sys.modules.get("colorsys") is _COLORSYS
             and sb._current_patches == [] and sb._current_stdout == [])
+
+
+import colorsys as _COLORSYS  # noqa
 
 
 def _cleanup(sb, snap):
@@ -37,15 +41,17 @@ def _cleanup(sb, snap):
     del sb._current_stdout[:]
     sys.stdout = snap[0]
     time.sleep = snap[1]
+    sys.modules["colorsys"] = _COLORSYS
+    sys.modules.pop("verif_fake_module", None)
 
 
-def restore1(t0: bool, t1: bool, t2: bool, t3: bool, text: str, fault: bool, close: bool) -> bool:
+def restore1(t0: bool, t1: bool, t2: bool, t3: bool, text: str, fault: bool, close: bool, nest: bool) -> bool:
     """
-    One execution through run / call / evaluate (= partition) whose (stubbed) program prints `text` and terminates in the way chosen
+    One execution through run / call / evaluate (= first partition component) whose (stubbed) program prints `text` and terminates in the way chosen
     from the 13-entry menu (normal, Exception subclasses incl. broken __str__/__repr__, SystemExit, RecursionError,
     KeyboardInterrupt, GeneratorExit, a direct BaseException subclass); `fault` makes pedal's own feedback construction
     raise (for exception classes without a dedicated feedback class); `close` makes the program close the stream it
-    was given before it terminates. Whether the call returns or raises, the borrowed
+    was given before it terminates; `nest` makes it trigger a nested evaluate() on the same sandbox; partition "entry,tamper": tamper 1/2/3 makes it delete / rebind / add an entry of sys.modules. Whether the call returns or raises, the borrowed
     process state is back and the sandbox's stacks are empty.
 
     pre: len(text) <= 1
@@ -53,7 +59,8 @@ def restore1(t0: bool, t1: bool, t2: bool, t3: bool, text: str, fault: bool, clo
     """
     if tick():
         return True
-    term, entry = bits(t0, t1, t2, t3), (int(PART) if PART else 0)
+    entry, tamper = [int(x) for x in (PART or "0,0").split(",")]
+    term = bits(t0, t1, t2, t3)
     if term >= len(TERMINATIONS) or entry >= 3:
         return True
     if excluded("C05.restore1", term=term, entry=entry, text=text, fault=fault):
@@ -62,7 +69,8 @@ def restore1(t0: bool, t1: bool, t2: bool, t3: bool, text: str, fault: bool, clo
     if close:
         text = "x"
     use_real_stream(close)
-    state["term"], state["text"], state["close"] = term, text, close
+    state["nest"] = sb if (nest and not close) else None
+    state["term"], state["text"], state["close"], state["tamper"] = term, text, close, tamper
     snap = _snapshot()
     _set_fault(fault)
     calls_before = state["calls"]
@@ -78,7 +86,7 @@ def restore1(t0: bool, t1: bool, t2: bool, t3: bool, text: str, fault: bool, clo
             return True
         return _restored(sb, snap)
     finally:
-        state["term"], state["close"] = 0, False
+        state["term"], state["close"], state["tamper"], state["nest"] = 0, False, 0, None
         use_real_stream(False)
         _set_fault(False)
         _cleanup(sb, snap)
